@@ -162,12 +162,23 @@ func structuredGarbage(r *sim.Rng, format string) []byte {
 	case 0: // valid block header, garbage data
 		h := []byte{0, byte(r.Intn(4)) << 6}
 		if h[1]&0x40 != 0 {
-			h = append(h, uvarint(sim.Pick(r, []uint64{1, 5, 1 << 20, 1<<63 - 1, 1 << 62}))...)
+			h = append(h, uvarint(sim.Pick(r, []uint64{1, 5, 1 << 20, 1<<63 - 1, 1 << 62, 1 << 63, 1<<64 - 1}))...)
 		}
 		if h[1]&0x80 != 0 {
-			h = append(h, uvarint(sim.Pick(r, []uint64{0, 5, 1 << 20, 1<<63 - 1}))...)
+			h = append(h, uvarint(sim.Pick(r, []uint64{0, 5, 1 << 20, 1<<63 - 1, 1 << 63, 1<<64 - 2}))...)
 		}
-		h = append(h, 0x21, 0x01, byte(r.Intn(29)))
+		if r.Chance(1, 3) {
+			// hostile filter fields: id and size of properties are variable-length
+			// integers too (ten-byte encodings reach 2^64-1)
+			h = append(h, uvarint(sim.Pick(r, []uint64{0x21, 0x21, 0x21, 3, 1 << 62, 1<<64 - 1}))...)
+			h = append(h, uvarint(sim.Pick(r, []uint64{1, 0, 2, 2000, 1 << 20, 1 << 40, 1<<63 - 1, 1 << 63, 1<<64 - 1, 1<<64 - 2}))...)
+			h = append(h, r.Bytes(r.Range(0, 6))...)
+		} else {
+			h = append(h, 0x21, 0x01, byte(r.Intn(29)))
+		}
+		if r.Chance(1, 5) {
+			h[1] |= byte(r.Range(1, 3)) // more filters announced than described
+		}
 		for (len(h)+4)%4 != 0 {
 			h = append(h, 0)
 		}
